@@ -353,6 +353,7 @@ def check_turn_case(case, sess: Session):
             tcase = {"cfg": case["cfg"], "turn": ti, "turns": case["turns"][:ti + 1], "world": case["world"]}
             sess.evaluations += 1
             sess.count("scheduled_turns")
+            sess.sample({"kind": "scheduled-turn", "scheduler": case["cfg"]["scheduler"], "turn": {k: t.get(k) for k in ("agent", "text", "pc_step", "pc_jump", "budgets")}})
             if r["exc"]:
                 sess.violation("turn-raises:" + r["exc_type"], tcase, r["tb"][-400:])
                 return
